@@ -4,7 +4,7 @@ CONSTANTS
   MaxTx = 2
   MaxWrites = 1
   Keys = {"k1"}
-  MaxReads = 1
+  MaxReads = 0
 INVARIANTS
   MutualExclusion
   Serial
